@@ -6,7 +6,7 @@ SPEC = {
         {"name": "c07alt", "pkg": "./zz_verif/c07", "run": "^TestC07Alt$",
          "configs": [c for c in CPU_OFF if c["name"] != "default"], "quick_configs": ["purego", "alloff"], "shards": {"quick": 1, "thorough": 1}},
     ],
-    "rule": "case = (KEM, KDF, AEAD, mode, ikmR, ikmS, ikmE, info, psk, psk_id, messages, exports, negative relation) drawn by rapid per KEM, "
+    "rule": "(a deterministic sweep of 52 plaintext / aad lengths around 2^8, 2^12, 2^16 and 2^17 minus the tag length per AEAD, and contexts restored at structured 96-bit sequence numbers, are part of every run) case = (KEM, KDF, AEAD, mode, ikmR, ikmS, ikmE, info, psk, psk_id, messages, exports, negative relation) drawn by rapid per KEM, "
             "plus one (thorough: four) deterministic pseudo-random case for each of the 252 KEM x KDF x AEAD x mode cells, plus the PSK-input table "
             "{nil, empty, non-empty}^2 x {PSK, AuthPSK} x {sender, receiver} and the re-used-object rows, plus the official vectors replayed on circl, "
             "plus sequences of 2..5 Setup* calls on one Sender and one Receiver object (drawn, and all 16 ordered pairs of modes per KEM), plus single-bit flips of one honest enc per KEM "
